@@ -10,5 +10,7 @@ CONSTANTS
   DevPeekWholeBuffer = FALSE
   DevErrorBeforeData = FALSE
   DevPeekAtStreamEnd = FALSE
+  MaxResets = 1
+  DevResetKeepsWindow = FALSE
 INVARIANTS Refines
 CHECK_DEADLOCK FALSE
